@@ -260,7 +260,7 @@ def stems_variants(ctx, rule, string_forms=True):
         if r.kind != "return" or r.term == ft:
             continue
         rt = r.term
-        ok = rt[0] == "slice" and rt[1][0] == "call" and rt[1][1] == "urllib.parse.urlunsplit" and rt[1][2] and rt[1][2][0] == ft and rt[2] == ("const", 2)
+        ok = U.is_string_form(rt, ft)
         ctx.ob(rule, "fingerprint_url/string-form-from-same-tuple", ok,
                "fingerprint_url's string form is not urlunsplit(<tuple returned with unsplit=False>)[2:]: fingerprinted_lru_stems (built from the tuple) disagrees with the string: %s" % P.show(rt, maxdepth=3),
                fref.module.site(r.node), witness="http://www.example.com/caf%C3%89/Menu")
